@@ -43,6 +43,25 @@ def runlength_ok(on, R, D, tar, toff):
     return True
 
 
+def resample(w, ct):
+    """profile w (one value per profile step) on grid steps that are ct profile steps long (documented behaviour of ramp_freq)"""
+    import math
+    if not w:
+        return []
+    n = len(w)
+    if ct < 1:
+        m = int(math.ceil(n / ct - 1e-12))
+        return [float(np.interp((j + 1) * ct, [i + 1 for i in range(n)], w)) for j in range(m)]
+    m = int(math.ceil(n / ct - 1e-12))
+    val = lambda u: w[min(int(math.floor(u + 1e-12)), n - 1)]          # piecewise constant, last value kept
+    out = []
+    for i in range(m):
+        a_, b_ = i * ct, (i + 1) * ct
+        cuts = sorted(set([a_, b_] + [float(k) for k in range(int(math.ceil(a_)), int(math.floor(b_)) + 1)]))
+        out.append(sum((q - p) * val((p + q) / 2) for p, q in zip(cuts[:-1], cuts[1:])) / (b_ - a_))
+    return out
+
+
 def unit_oracle(ctx, sp, o):
     g = sp['grid']
     a = [x for x in sp['assets'] if x['kind'] in ('Plant', 'CHPAsset')][0]
@@ -90,6 +109,12 @@ def unit_oracle(ctx, sp, o):
     srh = list(a.get('start_ramp_upper_bounds') or srl)
     sdl = list(a.get('shutdown_ramp_lower_bounds') or [])
     sdh = list(a.get('shutdown_ramp_upper_bounds') or sdl)
+    rf = a.get('ramp_freq') or g.get('unit', 'h')
+    if rf != g['freq']:
+        # profile given in another frequency: re-sampled to grid steps, independently of eaopack - the profile as a function of time
+        # (value j holds at (j, j+1] profile steps, i.e. is reached at the END of profile step j) is interpolated linearly where the
+        # grid is finer and averaged over each grid step where the profile is finer
+        srl, srh, sdl, sdh = [resample(w, gen.freq_td(g['freq']) / gen.freq_td(rf)) for w in (srl, srh, sdl, sdh)]
     S, Dn = len(srl), len(sdl)
     conv = gen.freq_td(g['freq']) / gen.freq_td(g.get('unit', 'h'))
     tar0 = steps_of(a.get('time_already_running', 0), g)
@@ -230,6 +255,8 @@ def run(ctx):
     specs = util.corpus(ctx.prop) + gen.gen_many_plants(ctx.seed, n, CFG, 'c06_')
     # start / shutdown ramp profiles; every second portfolio was set up before (same objects, other prices)
     prof = gen.gen_many_plants(ctx.seed, n // 2, dict(CFG, p_profile=1.0, freqs=['h', '2h', '30min'], T=(5, 9)), 'c06p_')
+    # profiles given in another frequency than the grid's (interpolated / averaged: Ramp.v)
+    prof += gen.gen_many_plants(ctx.seed, n // 2, dict(CFG, p_profile=1.0, p_ramp_other_freq=1.0, freqs=['h', '30min', '15min'], T=(6, 10)), 'c06rf_')
     for i, sp in enumerate(prof):
         if i % 2:
             sp['opts']['warmup'] = 'setup'
